@@ -1667,7 +1667,10 @@ impl Bundle {
                 return None;
             }
             // IO Finalizer has run, and neither bundle has excess spends or outputs.
-            (Some(_), _) | (_, Some(_)) => (),
+            (Some(_), _) => (),
+            // Only the other bundle carries `bsk` (e.g. it was redacted from this one);
+            // keep it, so that the result does not depend on the order of the bundles.
+            (None, Some(rhs)) => self.bsk = Some(rhs),
             // IO Finalizer has not run on either bundle.
             (None, None) => match (
                 self_global.shielded_modifiable(),
